@@ -6,8 +6,16 @@
    Specification: Model/UriSpec.v (URI grammar, protocol parameter names, legal values, abstract builder,
            and `tables_ok`, the decidable condition on the generated tables). *)
 From Coq Require Import Permutation.
-Require Import V.Base.MachineInt V.Model.UriTypes V.Generated.GenUriTables V.Model.UriSpec V.Model.Uri V.Model.UriBuilder
-               V.Oracle.C19Oracle V.Proofs.UriProofs V.Proofs.UriBuilderProofs V.Proofs.C19OracleProofs.
+Require Import V.Base.MachineInt.
+Require Import V.Model.UriTypes.
+Require Import V.Generated.GenUriTables.
+Require Import V.Model.UriSpec.
+Require Import V.Model.Uri.
+Require Import V.Model.UriBuilder.
+Require Import V.Oracle.C19Oracle.
+Require Import V.Proofs.UriProofs.
+Require Import V.Proofs.UriBuilderProofs.
+Require Import V.Proofs.C19OracleProofs.
 Open Scope Z_scope.
 
 (* ---- the parser -------------------------------------------------------------------------------------------- *)
